@@ -66,6 +66,32 @@ def run(cfg, mk):
                 r = grid.diff(da, cfg["diff"], boundary=cfg["rule"])
                 out.append(("diff:%s:dims" % cfg["diff"], sorted(r.dims)))
                 out.append(("diff:%s:values" % cfg["diff"], flat(r.transpose(*sorted(r.dims)).data)))
+        elif kind == "pad2":
+            # two padded axes with 'fill' and a different fill value per axis (corner cells see the order of the axes)
+            N = 2
+            from xgcm.padding import pad
+            if cfg["faces"]:
+                tb = {0: {"X": (None, (1, "X", False))}, 1: {"X": ((0, "X", False), None)}}
+                ds = xr.Dataset(coords={"face": [0, 1], "xc": np.arange(N) + 0.5, "yc": np.arange(N) + 0.5})
+                grid = xgcm.Grid(ds, coords={"X": {"center": "xc"}, "Y": {"center": "yc"}}, periodic=False, boundary="fill",
+                                 fill_value={"X": 10.0, "Y": -20.0}, face_connections={"face": tb}, autoparse_metadata=False)
+                da = xr.DataArray(mk("a", (2, N, N)), dims=["face", "yc", "xc"])
+            else:
+                ds = xr.Dataset(coords={"xc": np.arange(N) + 0.5, "yc": np.arange(N) + 0.5, "zc": np.arange(N) + 0.5})
+                grid = xgcm.Grid(ds, coords={"X": {"center": "xc"}, "Y": {"center": "yc"}, "Z": {"center": "zc"}}, periodic=False, boundary="fill",
+                                 fill_value={"X": 10.0, "Y": -20.0, "Z": 5.0}, autoparse_metadata=False)
+                da = xr.DataArray(mk("a", (N, N, N)), dims=["zc", "yc", "xc"])
+            for widths in cfg["widths"]:
+                w = {k: tuple(v) for k, v in widths.items()}
+                r = pad(da, grid, boundary_width=w)
+                out.append(("pad2:%s:values" % (sorted(w.items()),), flat(r.transpose(*sorted(r.dims)).data)))
+                r = pad(da, grid, boundary_width=w, boundary={"X": "fill", "Y": "fill"}, fill_value={"X": 1.5, "Y": 7.5})
+                out.append(("pad2:%s:percall:values" % (sorted(w.items()),), flat(r.transpose(*sorted(r.dims)).data)))
+            if not cfg["faces"]:
+                def f2(x):
+                    return x[..., 1:, 1:] - x[..., :-1, :-1]
+                r = grid.apply_as_grid_ufunc(f2, da, axis=[("Y", "X")], signature="(U:center,V:center)->(U:center,V:center)", boundary_width={"U": (1, 0), "V": (1, 0)})
+                out.append(("pad2:ufunc:values", flat(r.transpose(*sorted(r.dims)).data)))
         elif kind == "sig":
             from xgcm.grid_ufunc import _GridUFuncSignature
             for s1, s2 in cfg["pairs"]:
